@@ -163,10 +163,22 @@ func c14uRun(sc c14uCase) (vk.Result, error) {
 	}
 	wg.Wait()
 	smu.Lock()
+	nSessions, closedEarly := len(sessions), 0
 	for _, s := range sessions {
+		if s.IsClosed() {
+			closedEarly++
+		}
 		go s.Close()
 	}
 	smu.Unlock()
+	if remote.Singleplex {
+		// NumConn <= 0: one connection (one session) per stream, i.e. per proxy client; the network is healthy and the
+		// stream timeout far away, so every one of them is still open now
+		if nSessions != len(clis) || closedEarly > 0 {
+			return res, vk.ViolateSig("udp-singleplex", "NumConn=%d (one connection per stream): %d proxy clients sent datagrams, %d sessions were made and %d of them were closed again while their proxy clients were alive", sc.NumConn, len(clis), nSessions, closedEarly)
+		}
+		res.Labels = append(res.Labels, "singleplex")
+	}
 
 	mu.Lock()
 	defer mu.Unlock()
@@ -231,7 +243,7 @@ func c14uRun(sc c14uCase) (vk.Result, error) {
 
 func TestVerif_C14_UDPRig(t *testing.T) {
 	vk.Run(t, "C14", "UDPRig", func(rt *rapid.T) c14uCase {
-		sc := c14uCase{Enc: rapid.SampledFrom([]string{"plain", "aes-256-gcm", "chacha20-poly1305", "aes-128-gcm"}).Draw(rt, "enc"), NumConn: rapid.IntRange(1, 4).Draw(rt, "numconn"), Echo: rapid.Bool().Draw(rt, "echo")}
+		sc := c14uCase{Enc: rapid.SampledFrom([]string{"plain", "aes-256-gcm", "chacha20-poly1305", "aes-128-gcm"}).Draw(rt, "enc"), NumConn: rapid.SampledFrom([]int{0, 0, 1, 2, 3, 4}).Draw(rt, "numconn"), Echo: rapid.Bool().Draw(rt, "echo")}
 		nc := rapid.IntRange(1, 5).Draw(rt, "nclients")
 		size := rapid.OneOf(rapid.SampledFrom([]int{4, 5, 100, 1200, 1472, 8000, 8192}), rapid.IntRange(4, 3000))
 		for i := 0; i < nc; i++ {
@@ -243,4 +255,24 @@ func TestVerif_C14_UDPRig(t *testing.T) {
 		}
 		return sc
 	}, c14uRun)
+}
+
+// C20 SingleplexUDP: "NumConn <= 0 selects one-connection-per-stream mode" on the UDP path (client.RouteUDP): the
+// UDP rig of C14 with NumConn from {0, -1} and several proxy clients at the same time; every proxy client gets a session
+// of its own and none of them is closed while its client is alive.
+func TestVerif_C20_SingleplexUDP(t *testing.T) {
+	vk.Run(t, "C20", "SingleplexUDP", func(rt *rapid.T) c14uCase {
+		sc := c14uCase{Enc: rapid.SampledFrom([]string{"plain", "aes-256-gcm", "chacha20-poly1305", "aes-128-gcm"}).Draw(rt, "enc"), NumConn: rapid.SampledFrom([]int{0, 0, -1}).Draw(rt, "numconn"), Echo: rapid.Bool().Draw(rt, "echo")}
+		nc := rapid.IntRange(2, 4).Draw(rt, "nclients")
+		for i := 0; i < nc; i++ {
+			var l []int
+			for k, n := 0, rapid.IntRange(2, 8).Draw(rt, "ndg"); k < n; k++ {
+				l = append(l, rapid.SampledFrom([]int{4, 100, 1200, 1472}).Draw(rt, "size"))
+			}
+			sc.Clients = append(sc.Clients, l)
+		}
+		return sc
+	}, func(sc c14uCase) (vk.Result, error) {
+		return vk.Protect(func() (vk.Result, error) { return c14uRun(sc) })
+	})
 }
